@@ -1,6 +1,7 @@
 (** Property C11 — the theorems the check counts as obligations.  Nothing but
     statements closed by [exact] and [Print Assumptions]. *)
-From HS Require Import Base.Prelude C11.Model C11.NodeProofs C11.Election C11.Refute C11.LogProofs C11.LogMatching C11.Progress.
+From HS Require Import Base.Prelude Base.PyLib C11.Model C11.NodeProofs C11.Election C11.Refute C11.LogProofs C11.LogMatching C11.Progress
+  Gen.RaftLogGen C11.GenTie.
 Local Open Scope Z_scope.
 
 (** Each node applies indices 1,2,3,... in order without gaps or repeats, for
@@ -134,3 +135,29 @@ Theorem c11_replication_round_partial : forall n f (p : nat),
   end.
 Proof. exact replication_round. Qed.
 Print Assumptions c11_replication_round_partial.
+
+(* ------------------------------------------------------------------ *)
+(** The replicated log of the CODE: consensus/log.py as REGENERATED on every run
+    (Gen/RaftLogGen.v, py2coq) refines the model's log functions: [log_abs]
+    forgets the stored index field, [log_wf] (stored index = position) is kept. *)
+Theorem c11_code_log_refines_model : forall L t c i n,
+  (let r := Log_append L t c in
+   log_abs (fst r) = log_abs L ++ [(t, c)] /\ Log_commit_index (fst r) = Log_commit_index L
+   /\ triple (snd r) = (last_index (log_abs L) + 1, t, c) /\ (log_wf L -> log_wf (fst r)))
+  /\ (exists r, Log_get L i = Some r /\ option_map strip r = log_get (log_abs L) i)
+  /\ (let r := Log_truncate_from L i in
+      (log_abs (fst r), Log_commit_index (fst r)) = truncate_from (log_abs L) (Log_commit_index L) i
+      /\ (log_wf L -> log_wf (fst r)))
+  /\ (log_wf L -> map triple (Log_entries_after L i) = entries_after (log_abs L) i)
+  /\ Log_last_index L = last_index (log_abs L)
+  /\ Log_last_term L = Some (last_term (log_abs L))
+  /\ (log_wf L -> 0 <= Log_commit_index L -> Log_commit_index L <= zlen (Log__entries L) ->
+      let r := Log_advance_commit L n in
+      (Log_commit_index (fst r), map triple (snd r)) = advance_commit (log_abs L) (Log_commit_index L) n
+      /\ log_abs (fst r) = log_abs L).
+Proof.
+  intros L t c i n.
+  exact (conj (tie_log_append L t c) (conj (tie_log_get L i) (conj (tie_log_truncate L i) (conj (tie_log_entries_after L i)
+        (conj (tie_log_last_index L) (conj (tie_log_last_term L) (tie_log_advance_commit L n))))))).
+Qed.
+Print Assumptions c11_code_log_refines_model.
